@@ -82,3 +82,12 @@ Proof. vm_compute. reflexivity. Qed.
 Lemma ue14_to_e12_sound_lemma :
   forall rc, In rc [(1, 1); (2, 2); (3, 3); (4, 4); (2, 1)] -> check_e12 rc = true.
 Proof. apply forallb_forall. exact ue14_to_e12_sound_all. Qed.
+
+(* the hypotheses of the scalar identities can be met: um = 2, ui = 1/2, ux = 1/3, us = 1 at the
+   Gaussian rationals gives n = 1 - (1/2)(1/3)/2 = 11/12 *)
+Require Import QArith Qcanon LV.Base.QcI.
+Example e12_scalars_nonvacuous :
+  let um : QIF := mkqi 2 1 0 1 in let ui : QIF := mkqi 1 2 0 1 in
+  let ux : QIF := mkqi 1 3 0 1 in let us : QIF := mkqi 1 1 0 1 in
+  um <> @c0 QIF /\ csub us (cdiv (cmul ui ux) um) <> @c0 QIF.
+Proof. cbv zeta. split; apply qi_neqb; vm_compute; reflexivity. Qed.
